@@ -11,7 +11,8 @@ ASSUMPTIONS = ["QRegExp is an oracle (pattern, path) -> (match, rest after match
 TRUSTED = ["instrumented Handler/Middleware subclasses log their invocation; SimTcp stands in for TCP"]
 
 SEGS = [b"api", b"a", b"b", b"go", b"x1", b"42", b"files", b"a%20b", b"%0d%0aX-Evil:%20y", b"%2f", b"%25", b"%252", b"%251", b"%E2%82%AC", b"", b".", b"%3f", b"a+b", b"~u"]
-SUBPATS = [b"^api/", b"^a", b"^(\\w+)/", b"^files/?", b"^go/", b"^", b"^x\\d+", b"^[ab]+/", b"^api", b"^%", b"^nomatch/"]
+SUBPATS = [b"^api/", b"^a", b"^(\\w+)/", b"^files/?", b"^go/", b"^", b"^x\\d+", b"^[ab]+/", b"^api", b"^%", b"^nomatch/",
+           b"^\\d*", b"^[a-c]*", b"^.*", b"^(x?)"]        # patterns that can match the empty string at the start
 REDIRPATS = [b"^go/(.*)$", b"^old$", b"^(\\w+)/(\\d+)$", b"^a(.)(.)", b"^$", b"(\\d+)", b"^never$", b"^x(\\d)(\\d)?$", b"b$"]
 TEMPLATES = [b"/new/%1", b"/%2/%1", b"%1%1", b"/fixed", b"/p/%1/%3", b"/n/%1/%2", b"http://h/%1?q=%1"]
 
@@ -23,6 +24,8 @@ def rand_node(rng, depth, ids, refuse_ok):
         # refusal style of the instrumented middleware: id < 1000 complete 403, 1000.. nothing written, 2000.. own fragment, no close
         style = rng.choice([0, 0, 1000, 2000]) if refuse_ok else 0
         mws.append([style + ids[0], (rng.choice([0, 2, 2]) if (refuse_ok and rng.chance(1, 2)) else 1)])
+    if refuse_ok and len(mws) >= 2 and rng.chance(1, 4):
+        mws.append(list(mws[0]))         # the same middleware OBJECT attached again behind the others (same id = same object)
     redirs = [[rng.choice(REDIRPATS), rng.choice(TEMPLATES)] for _ in range(rng.range(0, 3) if rng.chance(2, 3) else 0)]
     subs = []
     if depth > 0:
